@@ -14,8 +14,13 @@
 //   history        rapidcheck-generated sequences of up to 25 operations on two canvases
 //   clip           clipping invariance: same operation on a canvas embedded in a larger one, cropped
 //   identities     mirror^2, invert^2, add-then-drop alpha, widen-then-narrow, deep copies (pixelwise and by operator==)
+//   wide           whole-image transforms on very wide, very short canvases (rows of megabytes), run on a thread with an explicit stack
 // Every canvas has a maximum sample value (Model::mv): the all-ones value of the channel width, or - a generated dimension - another
 // value, obtained through the raw-data constructors or by loading a Netpbm file with that MAXVAL (c07/ops.hh make_image).
+#include <pthread.h>
+
+#include <exception>
+
 #include "c07/interp.hh"
 #include "verif.hh"
 
@@ -340,9 +345,13 @@ static void enum_lines(Enum& e) {
 }
 
 // ---------------------------------------------------------------- enum_text: block n=[1, W, H, fmt, which]
-static const char* kTexts[6] = {"A", "g\n#", "\x01~ ", "W\r\nq", "", "\xFFj"};
+// the last three contain zero bytes: the formatted text is a byte string with a length, and a zero byte in it (put there by a %c
+// conversion) is one more unprintable character
+static const std::string kTexts[9] = {"A", "g\n#", "\x01~ ", "W\r\nq", "", "\xFFj", std::string("A\0B", 3), std::string("\0", 1), std::string("p\0\n\0q", 5)};
+static const int kNumTexts = 9;
 static void expand_text(const Case& c, const std::function<void(const Single&)>& f) {
   int64_t W = c.i(1), H = c.i(2), fmt = c.i(3), which = c.i(4);
+  if (which < 0 || which >= kNumTexts) throw std::logic_error("enum_text: text index outside the domain");
   Single s;
   s.op = OP_TEXT;
   s.t[0] = W, s.t[1] = H, s.t[2] = kFmt[fmt][0], s.t[3] = kFmt[fmt][1];
@@ -354,7 +363,7 @@ static void expand_text(const Case& c, const std::function<void(const Single&)>&
       s.a[2] = 0xF0, s.a[3] = 0x1, s.a[4] = 0x1FF, s.a[5] = ((x + y) & 1) ? 0xFF : 0x60;
       s.a[6] = 0x20, s.a[7] = 0x30, s.a[8] = 0x40;
       s.a[9] = (x & 1) ? 0 : ((y & 1) ? 0xFF : 0x80);
-      s.a[11] = (x + 2 * y + 100) % 5;
+      s.a[11] = (x + 2 * y + 100) % 5 + 5 * ((3 * x + y + 200) % 4); // overload, and how the text gets into the formatted output (c07/interp.hh)
       f(s);
     }
   }
@@ -372,9 +381,9 @@ static void enum_text(Enum& e) {
   }
   size_t k = 0;
   for (auto sz : sizes)
-    for (int which = 0; which < 6; which++, k++) blocks.push_back(Case(e.sc.name).N(1).I(sz.first).I(sz.second).I(k % 8).I(which));
+    for (int which = 0; which < kNumTexts; which++, k++) blocks.push_back(Case(e.sc.name).N(1).I(sz.first).I(sz.second).I(k % 8).I(which));
   enumerate_blocks(e, blocks, expand_text);
-  if (!e.stop) e.complete(cat("draw_text (5 overloads, 6 strings incl. newlines and unprintable bytes, with/without background) at every position in [-8,w+2] x [-10,h+2] on ", sizes.size(), " canvas sizes"));
+  if (!e.stop) e.complete(cat("draw_text (5 overloads x 4 ways of formatting, 9 strings incl. newlines, unprintable bytes and zero bytes, with/without background) at every position in [-8,w+2] x [-10,h+2] on ", sizes.size(), " canvas sizes"));
 }
 
 // ---------------------------------------------------------------- enum_textlen: block n=[1, layout, first length, last length]
@@ -412,7 +421,7 @@ static void expand_textlen(const Case& c, const std::function<void(const Single&
     s.a[2] = 0xF0, s.a[3] = 0x1, s.a[4] = 0x1FF, s.a[5] = (len & 1) ? 0xFF : 0x60;
     s.a[6] = 0x20, s.a[7] = 0x30, s.a[8] = 0x40;
     s.a[9] = (len % 3) == 0 ? 0 : ((len % 3) == 1 ? 0xFF : 0x80);
-    s.a[11] = len % 5;
+    s.a[11] = len % 5 + 5 * ((len / 5) % 4);
     f(s);
   }
 }
@@ -427,7 +436,7 @@ static void enum_textlen(Enum& e) {
     }
   }
   enumerate_blocks(e, blocks, expand_textlen);
-  if (!e.stop) e.complete(cat("draw_text (5 overloads) with every text length 0..", dense, " and 2^k-3..2^k+2 up to ", e.thorough() ? 65536 : 4096, ", as one line and with line breaks, placed so that the last characters are on a 13x10 canvas"));
+  if (!e.stop) e.complete(cat("draw_text (5 overloads, 4 ways of formatting) with every text length 0..", dense, " and 2^k-3..2^k+2 up to ", e.thorough() ? 65536 : 4096, ", as one line and with line breaks, placed so that the last characters are on a 13x10 canvas"));
 }
 
 // ---------------------------------------------------------------- enum_transform: block n=[1, W, H]
@@ -527,8 +536,8 @@ static std::string gen_text(size_t maxlen) {
   for (size_t i = 0; i < n; i++) {
     switch (vg::below(8)) {
       case 0: s += '\n'; break;
-      case 1: s += static_cast<char>(vg::range(1, 255)); break;
-      case 2: s += vg::pick<char>({'\r', ' ', '\x7F', '\x1F', '\x80', '%'}); break;
+      case 1: s += static_cast<char>(vg::range(0, 255)); break;
+      case 2: s += vg::pick<char>({'\r', ' ', '\x7F', '\x1F', '\x80', '%', '\0'}); break;
       default: s += static_cast<char>(vg::range(0x21, 0x7E));
     }
   }
@@ -547,8 +556,8 @@ static std::string gen_long_text() {
   for (size_t i = 0; i < n; i++) {
     switch (vg::below(24)) {
       case 0: s += '\n'; break;
-      case 1: s += static_cast<char>(vg::range(1, 255)); break;
-      case 2: s += vg::pick<char>({'\r', '\x7F', '\x1F', '\x80', '%'}); break;
+      case 1: s += static_cast<char>(vg::range(0, 255)); break;
+      case 2: s += vg::pick<char>({'\r', '\x7F', '\x1F', '\x80', '%', '\0'}); break;
       case 3:
       case 4:
       case 5:
@@ -559,6 +568,11 @@ static std::string gen_long_text() {
       case 10: s += ' '; break;
       default: s += static_cast<char>(vg::range(0x21, 0x7E));
     }
+  }
+  // at most 8 zero bytes (what the interpreter's format modes can express): further ones become another unprintable byte
+  size_t zeros = 0;
+  for (char& ch : s) {
+    if (ch == 0 && ++zeros > 8) ch = '\x01';
   }
   return s;
 }
@@ -734,12 +748,12 @@ static void gen_op_args(int op, const Dims& t, const Dims& o, int64_t* a, std::v
         }
         strings.push_back(lt);
         a[10] = strings.size() - 1;
-        a[11] = vg::below(5);
+        a[11] = vg::below(5) + 5 * vg::below(4);
         break;
       }
       strings.push_back(gen_text(far ? 3 : 7));
       a[10] = strings.size() - 1;
-      a[11] = vg::below(5);
+      a[11] = vg::below(5) + 5 * vg::below(4);
       break;
     }
     case OP_SET_ALPHA: a[0] = vg::coin(); break;
@@ -1055,6 +1069,183 @@ static void enum_identities(Enum& e) {
   e.complete(cat("identities on every canvas 0..", N, " x 0..", N, " in all 8 formats, with the all-ones maximum value and 4 others"));
 }
 
+// ---------------------------------------------------------------- wide: whole-image transforms on very wide, very short canvases
+// "For any canvas ... the whole-image transforms never throw, never touch memory outside the pixel buffer": the size of a canvas is
+// an argument like any other, and a canvas of a few tens of megabytes whose rows are long is an ordinary canvas. The operation runs on a
+// thread with an explicit stack of the glibc default size (8 MiB) or of 512 KiB (the default of secondary threads on other
+// platforms): what a transform needs besides the pixel buffer must not grow with the canvas. The model is the ordinary Model applied
+// to a sub-sampled canvas: a set of columns closed under x -> W-1-x (both ends, the middle, a regular grid, pseudo-random ones) with all
+// rows - every whole-image transform commutes with that sub-sampling - and only those pixels are compared.
+// n = [W, H, alpha, cw, kind, stack KiB, seed]
+enum WideKind { WK_REV_H = 0, WK_REV_V, WK_INVERT, WK_SET_ALPHA, WK_COPY, WK_SET_CW, WK_TWICE, WK_COUNT };
+static const char* wide_kind_name(int k) {
+  static const char* n[] = {"reverse_horizontal", "reverse_vertical", "invert", "set_has_alpha", "copy", "set_channel_width", "mirror-twice"};
+  return (k >= 0 && k < WK_COUNT) ? n[k] : "?";
+}
+static inline uint64_t wide_value(uint64_t seed, int64_t x, int64_t y, unsigned ch) {
+  uint64_t v = (static_cast<uint64_t>(x) * 4 + ch) * 0x9E3779B97F4A7C15ULL + (static_cast<uint64_t>(y) + seed) * 0xC2B2AE3D27D4EB4FULL;
+  return v ^ (v >> 29);
+}
+static std::vector<int64_t> wide_columns(int64_t W, uint64_t seed) {
+  std::set<int64_t> xs;
+  auto add = [&](int64_t x) {
+    if (x < 0 || x >= W) return;
+    xs.insert(x);
+    xs.insert(W - 1 - x);
+  };
+  for (int64_t k = 0; k < 16; k++) add(k), add(W / 2 - 8 + k);
+  for (int64_t k = 1; k < 64; k++) add(W / 64 * k), add(W / 64 * k - 1);
+  Rng r(seed);
+  for (int k = 0; k < 300 && W > 0; k++) add(static_cast<int64_t>(r.next() % static_cast<uint64_t>(W)));
+  return std::vector<int64_t>(xs.begin(), xs.end());
+}
+static void wide_compare(const phosg::Image& img, const Model& sub, const std::vector<int64_t>& X, int64_t W, int kind, const std::string& step) {
+  std::string sig = cat("wide:", wide_kind_name(kind));
+  VCHECK(static_cast<int64_t>(img.get_width()) == W && static_cast<int64_t>(img.get_height()) == sub.h && img.get_has_alpha() == sub.alpha && img.get_channel_width() == sub.cw, sig, step, ": header is ",
+      img.get_width(), "x", img.get_height(), " alpha=", img.get_has_alpha(), " cw=", static_cast<int>(img.get_channel_width()), ", model says ", W, "x", sub.h, " alpha=", sub.alpha, " cw=", sub.cw);
+  size_t nc = sub.alpha ? 4 : 3, bw = sub.cw / 8;
+  VCHECK(img.get_data_size() == static_cast<size_t>(W) * sub.h * nc * bw, sig, step, ": get_data_size() is ", img.get_data_size());
+  const uint8_t* d = static_cast<const uint8_t*>(img.get_data());
+  for (int64_t y = 0; y < sub.h; y++) {
+    for (size_t k = 0; k < X.size(); k++) {
+      for (size_t ch = 0; ch < nc; ch++) {
+        uint64_t got = 0;
+        memcpy(&got, d + ((static_cast<size_t>(y) * W + X[k]) * nc + ch) * bw, bw);
+        uint64_t want = sub.v[(static_cast<size_t>(y) * X.size() + k) * 4 + ch];
+        VCHECK(got == want, sig, step, " on a ", W, "x", sub.h, sub.alpha ? " alpha" : " opaque", " cw=", sub.cw, " canvas: pixel (", X[k], ",", y, ") channel ", ch, " is 0x", std::hex, got, ", model says 0x", want);
+      }
+    }
+  }
+}
+struct WideJob {
+  int64_t W, H;
+  bool alpha;
+  unsigned cw;
+  int kind;
+  uint64_t seed;
+  std::exception_ptr err;
+};
+static void wide_body(WideJob& j) {
+  const int64_t W = j.W, H = j.H;
+  phosg::Image img(W, H, j.alpha, j.cw);
+  const std::vector<int64_t> X = wide_columns(W, j.seed);
+  Model sub(X.size(), H, j.alpha, j.cw);
+  {
+    size_t nc = j.alpha ? 4 : 3, bw = j.cw / 8;
+    uint64_t M = mask_of(j.cw);
+    uint8_t* d = static_cast<uint8_t*>(img.get_data());
+    for (int64_t y = 0; y < H; y++) {
+      for (int64_t x = 0; x < W; x++) {
+        for (size_t ch = 0; ch < nc; ch++) {
+          uint64_t v = wide_value(j.seed, x, y, ch) & M;
+          memcpy(d + ((static_cast<size_t>(y) * W + x) * nc + ch) * bw, &v, bw);
+        }
+      }
+      for (size_t k = 0; k < X.size(); k++) {
+        for (size_t ch = 0; ch < nc; ch++) sub.v[(static_cast<size_t>(y) * X.size() + k) * 4 + ch] = wide_value(j.seed, X[k], y, ch) & M;
+      }
+    }
+  }
+  wide_compare(img, sub, X, W, j.kind, "freshly filled canvas");
+  std::string ewhat;
+  auto step = [&](const char* what, const std::function<void()>& real, const std::function<void()>& model) {
+    int e = run_catching(real, &ewhat);
+    VCHECK(e == EXC_NONE, cat("wide-exception:", wide_kind_name(j.kind)), what, " on a ", W, "x", H, " canvas raised ", exc_name(e), " (", ewhat, ")");
+    model();
+    wide_compare(img, sub, X, W, j.kind, what);
+  };
+  switch (j.kind) {
+    case WK_REV_H: step("reverse_horizontal", [&] { img.reverse_horizontal(); }, [&] { m_reverse_horizontal(sub); }); break;
+    case WK_REV_V: step("reverse_vertical", [&] { img.reverse_vertical(); }, [&] { m_reverse_vertical(sub); }); break;
+    case WK_INVERT: step("invert", [&] { img.invert(); }, [&] { m_invert(sub); }); break;
+    case WK_SET_ALPHA:
+      step("set_has_alpha (toggle)", [&] { img.set_has_alpha(!j.alpha); }, [&] { m_set_has_alpha(sub, !j.alpha); });
+      step("set_has_alpha (back)", [&] { img.set_has_alpha(j.alpha); }, [&] { m_set_has_alpha(sub, j.alpha); });
+      break;
+    case WK_SET_CW: {
+      unsigned other = j.cw == 64 ? 32 : j.cw * 2;
+      step("set_channel_width (other width)", [&] { img.set_channel_width(other); }, [&] { m_set_channel_width(sub, other); });
+      step("set_channel_width (back)", [&] { img.set_channel_width(j.cw); }, [&] { m_set_channel_width(sub, j.cw); });
+      break;
+    }
+    case WK_TWICE: {
+      const Model orig = sub;
+      step("reverse_vertical", [&] { img.reverse_vertical(); }, [&] { m_reverse_vertical(sub); });
+      step("reverse_vertical twice", [&] { img.reverse_vertical(); }, [&] { sub = orig; });
+      step("reverse_horizontal", [&] { img.reverse_horizontal(); }, [&] { m_reverse_horizontal(sub); });
+      step("reverse_horizontal twice", [&] { img.reverse_horizontal(); }, [&] { sub = orig; });
+      break;
+    }
+    case WK_COPY: {
+      const Model orig = sub;
+      std::string sig = cat("wide:", wide_kind_name(j.kind));
+      {
+        phosg::Image cc(img);
+        wide_compare(cc, orig, X, W, j.kind, "copy-constructed image");
+        VCHECK(cc.get_data() != img.get_data(), sig, "a copy shares the pixel buffer of its source");
+        step("invert of the source of a copy", [&] { img.invert(); }, [&] { m_invert(sub); });
+        wide_compare(cc, orig, X, W, j.kind, "copy-constructed image after mutating the source");
+      }
+      {
+        phosg::Image ca(2, 2, !j.alpha, j.cw == 8 ? 16 : 8);
+        ca = img;
+        wide_compare(ca, sub, X, W, j.kind, "copy-assigned image");
+        VCHECK(ca.get_data() != img.get_data(), sig, "a copy shares the pixel buffer of its source");
+        phosg::Image mv(std::move(ca));
+        wide_compare(mv, sub, X, W, j.kind, "move-constructed image");
+      }
+      break;
+    }
+    default: throw std::logic_error("wide: unknown kind");
+  }
+}
+static void* wide_thread(void* p) {
+  WideJob* j = static_cast<WideJob*>(p);
+  try {
+    wide_body(*j);
+  } catch (...) {
+    j->err = std::current_exception();
+  }
+  return nullptr;
+}
+static void run_wide(const Case& c) {
+  WideJob j;
+  j.W = c.i(0), j.H = c.i(1), j.alpha = c.i(2) != 0, j.cw = static_cast<unsigned>(c.u(3)), j.kind = static_cast<int>(c.i(4));
+  int64_t stack_kib = c.i(5);
+  j.seed = c.u(6);
+  if (j.cw != 8 && j.cw != 16 && j.cw != 32 && j.cw != 64) throw std::logic_error("wide: channel width outside the domain");
+  if (j.W < 0 || j.H < 0 || j.H > 16 || j.kind < 0 || j.kind >= WK_COUNT) throw std::logic_error("wide: case outside the domain");
+  if (static_cast<i128>(j.W) * j.H * 4 * (j.cw / 8) > (48LL << 20)) throw std::logic_error("wide: canvas above 48 MiB is outside the domain (cost)");
+  if (stack_kib < 256 || stack_kib > 65536) throw std::logic_error("wide: stack size outside the domain");
+  pthread_attr_t at;
+  pthread_attr_init(&at);
+  if (pthread_attr_setstacksize(&at, static_cast<size_t>(stack_kib) * 1024) != 0) throw std::logic_error("wide: pthread_attr_setstacksize failed");
+  pthread_t th;
+  int rc = pthread_create(&th, &at, wide_thread, &j);
+  pthread_attr_destroy(&at);
+  if (rc != 0) throw std::logic_error("wide: pthread_create failed");
+  pthread_join(th, nullptr);
+  if (j.err) std::rethrow_exception(j.err);
+  ctx().cls(cat("wide:", wide_kind_name(j.kind), j.alpha ? ":alpha" : ":opaque", ":cw", j.cw, ":stack", stack_kib, "KiB"));
+  ctx().nontrivial(mix(mix(mix(j.W, j.H), mix(j.alpha, j.cw)), mix(j.kind, stack_kib)));
+}
+// {W, H, alpha, cw, stack KiB}: rows of 8.8 .. 9.6 MB on an 8 MiB stack, rows of 560 .. 720 KB on a 512 KiB stack
+static const int64_t kWide[][5] = {
+    {3000000, 2, 0, 8, 8192}, {2200000, 1, 1, 8, 8192}, {300000, 2, 1, 64, 8192}, {800000, 3, 0, 32, 8192}, {1100000, 2, 1, 16, 8192},
+    {200000, 3, 0, 8, 512}, {20000, 4, 1, 64, 512}, {150000, 2, 1, 8, 512}, {60000, 5, 0, 32, 512}, {70000, 1, 1, 16, 512}};
+static void enum_wide(Enum& e) {
+  uint64_t idx = 0;
+  size_t ngeo = sizeof(kWide) / sizeof(kWide[0]);
+  for (size_t g = 0; g < ngeo; g++) {
+    for (int kind = 0; kind < WK_COUNT; kind++) {
+      if (!e.mine(idx++)) continue;
+      e.exec(Case(e.sc.name).I(kWide[g][0]).I(kWide[g][1]).I(kWide[g][2]).I(kWide[g][3]).I(kind).I(kWide[g][4]).N(g * 16 + kind));
+      if (e.stop) return;
+    }
+  }
+  e.complete(cat("mirror both ways, mirror twice, invert, set_has_alpha, set_channel_width, copies on ", ngeo, " very wide canvases of 1..5 rows (rows of 8.8-9.6 MB on a thread with an 8 MiB stack, rows of 0.5-0.7 MB on a 512 KiB stack), sparse comparison with the model"));
+}
+
 int main(int argc, char** argv) {
   std::vector<SubCheck> checks;
   auto add_enum = [&](const char* name, Expander ex, std::function<void(Enum&)> en) {
@@ -1106,6 +1297,13 @@ int main(int argc, char** argv) {
     s.enumerate = enum_identities;
     s.quick_cases = 2000;
     s.thorough_cases = 60000;
+    checks.push_back(s);
+  }
+  {
+    SubCheck s;
+    s.name = "wide";
+    s.run = run_wide;
+    s.enumerate = enum_wide;
     checks.push_back(s);
   }
   return main_(argc, argv, checks);
